@@ -65,7 +65,7 @@ func onEveryOKPath(c *Ctx, rule string, fn *ssa.Function, what string, steps []f
 		}
 		return false
 	}
-	paths, complete := enumPaths(fn.Blocks[0].Instrs[0], interesting, nil, nil, 600)
+	paths, complete := enumPathsAt(fn.Blocks[0], 0, interesting, nil, nil, 600)
 	key := fnName(fn) + "/" + what
 	if !complete {
 		c.undecided(rule, key, fn.Pos(), "too many paths")
@@ -781,7 +781,7 @@ func c12Intervals(c *Ctx) {
 				return w
 			})
 			// paths reaching the slot store without the eviction must carry isFull == false
-			paths, _ := enumPaths(fn.Blocks[0].Instrs[0], func(i ssa.Instruction) bool { return i == ssa.Instruction(evict) || i == ssa.Instruction(st) }, nil,
+			paths, _ := enumPathsAt(fn.Blocks[0], 0, func(i ssa.Instruction) bool { return i == ssa.Instruction(evict) || i == ssa.Instruction(st) }, nil,
 				func(pa *fpath) bool { return len(pa.seen) > 0 && pa.seen[len(pa.seen)-1] == ssa.Instruction(st) }, 200)
 			bad := ""
 			for _, pa := range paths {
